@@ -232,10 +232,10 @@ for c in seqs.cases():
                 what="handle-level fault scenario %s: a one-shot failure of the next storage read (C12) / write-back (C13) is armed (ARMR/ARMW); the failing call returns Err and leaves the position; retries return the true bytes; a flush that returns Ok after a failed one leaves exactly the written bytes in storage" % [seqs.NAMES[o] for o in c["ops"]],
                 bounds="concrete call sequence, symbolic data; fault at the storage-model boundary (lower layers: stor_read_fault_*, c13_free_fault_*)",
                 functions=CACHE_F, assumes=[A_MODELP, A_BUF8, A_UPG])
-for (n, tier) in [("c13_free_fault_at0", "quick"), ("c13_free_fault_at1", "quick"), ("c13_free_fault_at2", "thorough"), ("c13_free_fault_at3", "quick"), ("c13_free_fault_at5", "thorough")]:
+for (n, tier) in [("c13_free_fault_at0", "quick"), ("c13_free_fault_at1", "thorough"), ("c13_free_fault_at2", "quick"), ("c13_free_fault_at3", "thorough"), ("c13_free_fault_at4", "quick"), ("c13_free_fault_at5", "thorough")]:
     harness(n, props=["C13"], tier=tier, timeout=1800, mem=6, stubs=[FMT],
             what="free_chain of a 3-sector chain with the k-th write/seek call failing, then a retry: the fault surfaces, nothing panics, no sector is on the free list twice and every listed sector is FREE",
-            bounds="4 sectors, one fault at call index k", functions=ALLOC_F, assumes=[A_FAULT, A_SHAPE])
+            bounds="4 sectors, one fault at call index k (even k: a seek, odd k: a write of the FAT cell)", functions=ALLOC_F, assumes=[A_FAULT, A_SHAPE])
 
 # ---------------------------------------------------------------- chunked transfers (C18)
 A_CHUNK = "environment: Chunky backend - the at-th read/write call transfers 1 byte, n-1 bytes, or returns Interrupted (position and kind concrete per instance)"
@@ -356,7 +356,7 @@ QUICK.update({
             "cache_c_refused_seeks_change_nothing_min"],
     "C11": ["alloc_next_total", "chain_new_total"],
     "C12": ["stor_read_fault_seek0", "stor_read_fault_seek1", "stor_read_fault_read0", "stor_read_cross"] + [n for n in seqs.quick_faults() if "c12" in n],
-    "C13": ["c13_free_fault_at0", "c13_free_fault_at1", "c13_free_fault_at3", "cache_c_write_flush_write_read_min"] + [n for n in seqs.quick_faults() if "c13" in n],
+    "C13": ["c13_free_fault_at0", "c13_free_fault_at2", "c13_free_fault_at4", "cache_c_write_flush_write_read_min"] + [n for n in seqs.quick_faults() if "c13" in n],
     "C14": ["c14_lookups", "c14_iter_root", "c14_iter_walk", "c14_iter_storage", "c14_stream_ops"],
     "C15": ["alloc_begin_free13", "alloc_extend_free3", "alloc_free_chain3", "alloc_free_after3", "mini_begin_reuse",
             "mini_begin_after_empty", "mini_free_tail2", "mini_free_all", "dir_ins_n3_s0_g1", "big_4096_to_100"],
